@@ -148,6 +148,8 @@ def gen(seed, tier):
     out.append("unpack_bits a2:6,255 n z-17 z0")
     out.append("lcm a2:0,0 a2:0,5")
     out.append("matmul a2x3:1,2,3,4,5,6 a2x2:1,2,3,4")
+    out.append("s_zfill A2:.2d37,.35 z0")
+    out.append("s_zfill A1:.2d z0")
     out.append("s_capitalize A2:.,.61")
     out.append("s_replace A1:.6162 A1:.61 A1:.6261 n")
     return out
